@@ -173,6 +173,12 @@ impl varlink::Interface for Scripted {
                 call.to_upgraded();
                 call.reply_struct(Reply::parameters(Some(json!({ "token": token }))))
             }
+            // a relay-style method whose own downstream call failed: it writes nothing and hands the
+            // downstream error reply up as its Err value
+            "ErrReply" => Err(varlink::Error::from(varlink::ErrorKind::VarlinkErrorReply(Reply::error(
+                format!("{}.Downstream", self.name),
+                Some(json!({ "token": token })),
+            )))),
             "Script" => {
                 let ops: Vec<String> = params
                     .as_ref()
@@ -193,6 +199,10 @@ impl varlink::Interface for Scripted {
                         }
                         "c0" => {
                             call.set_continues(false);
+                            continue;
+                        }
+                        "u" => {
+                            call.to_upgraded();
                             continue;
                         }
                         "r" => {
